@@ -59,7 +59,12 @@ def parse_race_log(text):
 
 def run(tier, seed, replay, extra):
     prop = "C21"
-    work, binary, _ = vlib.prepare_dataplane(prop, race=True)
+    cfgs = dict(vlib.CFGS)
+    # one configuration with path structs: resolving shared path structs concurrently is part of the workload
+    cfgs["vtoc/C-paths"] = dict(pkg="vtocp", files=["openconfig-vtoc.yang"], pathstructs=True,
+                                flags=["-compress_paths", "-generate_simple_unions", "-ignore_shadow_schema_paths"],
+                                attrs=dict(Compressed=True, Wrapper=False, Shadow=True))
+    work, binary, _ = vlib.prepare_dataplane(prop, race=True, cfgs=cfgs)
     nproc = 8 if tier != "thorough" else 120
     if replay:
         try:
@@ -120,7 +125,12 @@ def run(tier, seed, replay, extra):
             overlap.add(pr)
         for v in cov.get("violations") or []:
             sig = v["signature"].split("/", 2)
-            r.violate(sig[1], sig[2], v.get("detail", ""), {"process_seed": s, "replay": v.get("replay")})
+            child = None
+            try:
+                child = json.load(open(v.get("replay"))).get("witness")
+            except Exception:
+                pass
+            r.violate(sig[1], sig[2], v.get("detail", ""), {"process_seed": s, "child_witness": child})
         for f in glob.glob(os.path.join(rdir, "p%d.*" % s)):
             for sig, block in parse_race_log(open(f, errors="replace").read()):
                 blocks += 1
@@ -133,7 +143,7 @@ def run(tier, seed, replay, extra):
     r.extra["gomaxprocs_seen"] = sorted(k for k in r.cov if k.startswith("gomaxprocs:"))
     if len(overlap) < 3:
         r.inconclusive("fewer than 3 distinct operation pairs overlapped in time")
-    r.require_cov("op:Validate", "op:EmitJSON", "op:TogNMINotifications", "op:Diff", "op:DeepCopy",
+    r.require_cov("path-structs-linked", "op:ResolvePath#0", "op:Validate", "op:EmitJSON", "op:TogNMINotifications", "op:Diff", "op:DeepCopy",
                   "op:Unmarshal(shared JSON value)", "op:UnmarshalSetRequest(shared request)",
                   "op:SetNode+TolerateJSONInconsistencies(shared TypedValues)")
     return r.finish()
